@@ -58,7 +58,8 @@ def run(repo, rep, tier):
     rep.decided = ["D1a year selected by the recomputed month", "D1b century correction only under a calendar test", "D1c no year skipped by the calendar split",
                    "D1d JD->date blocks share get_date's constants", "D2 argument refusals"]
     rep.decided.append("D3 Easter and Pesach equal the published recipes")
-    rep.undecided = ["equivalence of the published recipes with the tabular Computus / Hebrew calendar (trusted)", "month lengths 29/30 and year lengths 354/355", "bijection on days / epoch 16 July 622"]
+    rep.undecided = ["equivalence of the published recipes with the tabular Computus / Hebrew calendar (trusted)", "Moslem years beyond 1600 AH"]
+    rep.decided.append("D4 Moslem <-> civil bijection, month/year lengths and the 16 July 622 epoch by exact execution on every Moslem year 1..1600 (R-CYCLE)")
     recipes(repo, rep)
     moslem_carry(repo, rep)
     daycount(repo, rep)
